@@ -1,4 +1,4 @@
-package checks
+package hist
 
 // Shared machinery for sequential stack histories (C07, C09, C12, C13, C14, C17):
 // serialisable operations, a generator for transactions over a small name
@@ -170,7 +170,7 @@ func WriteFn(min, max uint64, refs []gen.Ref, logs []gen.Log) func(w *reftable.W
 }
 
 // conflict-free pool: no name is a directory prefix of another, all valid.
-var safePool = []string{"HEAD", "refs/heads/main", "refs/heads/dev", "refs/heads/a", "refs/heads/ab", "refs/tags/v1",
+var SafePool = []string{"HEAD", "refs/heads/main", "refs/heads/dev", "refs/heads/a", "refs/heads/ab", "refs/tags/v1",
 	"refs/tags/v1.0", "refs/remotes/origin/main", "refs/x", "refs/heads/feature-long-name-0123456789"}
 
 // TxOpts steers DrawTx.
@@ -186,7 +186,7 @@ type TxOpts struct {
 
 var txHashes = [][]byte{}
 
-func poolHash(t *rapid.T, hs int) []byte {
+func PoolHash(t *rapid.T, hs int) []byte {
 	h := make([]byte, hs)
 	v := rapid.IntRange(0, 5).Draw(t, "h")
 	for i := range h {
@@ -213,11 +213,11 @@ func DrawTx(t *rapid.T, o TxOpts) HTx {
 			r.Kind = gen.KDel
 		case k < 7:
 			r.Kind = gen.KVal
-			r.Val = poolHash(t, o.HashSize)
+			r.Val = PoolHash(t, o.HashSize)
 		case k < 9:
 			r.Kind = gen.KPeeled
-			r.Val = poolHash(t, o.HashSize)
-			r.Peeled = poolHash(t, o.HashSize)
+			r.Val = PoolHash(t, o.HashSize)
+			r.Peeled = PoolHash(t, o.HashSize)
 		default:
 			r.Kind = gen.KSym
 			r.Target = Str(rapid.SampledFrom(o.Pool).Draw(t, "target"))
@@ -236,10 +236,10 @@ func DrawTx(t *rapid.T, o TxOpts) HTx {
 		}
 		if !l.Del {
 			if rapid.IntRange(0, 4).Draw(t, "oldNil") != 0 {
-				l.Old = poolHash(t, o.HashSize)
+				l.Old = PoolHash(t, o.HashSize)
 			}
 			if rapid.IntRange(0, 4).Draw(t, "newNil") != 0 {
-				l.New = poolHash(t, o.HashSize)
+				l.New = PoolHash(t, o.HashSize)
 			}
 			l.Who = Str(rapid.SampledFrom([]string{"", "A U Thor", "c"}).Draw(t, "who"))
 			l.Email = Str(rapid.SampledFrom([]string{"", "a@example.com"}).Draw(t, "email"))
